@@ -32,7 +32,7 @@ theorem runE_of_runW (d r : Nat) (l : List Ev) (h : runW d l = some r) :
 /-- the initial parser state satisfies the invariant -/
 theorem inv_init (kinds : Array SyntaxKind) (joint : Array Bool) (npl : Nat) :
     Inv kinds joint { kinds := kinds, joint := joint, noProgressLimit := npl } :=
-  ⟨rfl, rfl, rfl, by intro j k f hj; simp at hj, rfl, Nat.zero_le _, rfl⟩
+  ⟨rfl, rfl, rfl, by intro j k f hj; simp at hj, rfl, Nat.zero_le _, rfl, rfl⟩
 
 theorem at_simple_ok (k : SyntaxKind) (hc : compositePieces k = none) (s : P) (r : Bool × P)
     (h : at' k s = .ok r) : r = (s.kindAt s.pos == k, s) := by
@@ -100,6 +100,7 @@ structure ParseOk (kinds : Array SyntaxKind) (joint : Array Bool) (events : List
   /-- every token event accounts for its raw tokens, and they are all of the input -/
   tok : sumTok events = pos
   glue : glueOK joint 0 events = true
+  gluek : glueKE kinds 0 events = true
   pos_le : pos ≤ kinds.size
   /-- parsing stopped at end of input -/
   at_eof : kinds.getD pos .EOF = .EOF
@@ -160,7 +161,7 @@ theorem sourceFile_ok (fuel : Nat) (kinds : Array SyntaxKind) (joint : Array Boo
       have hd := hI2.dyck
       rw [htail] at hd
       simp only [runW, beq_self_eq_true, if_true] at hd
-      refine ⟨?_, hI3.fp.toFpOK, hI3.tok, hI3.glue, hI3.pos_le, ?_⟩
+      refine ⟨?_, hI3.fp.toFpOK, hI3.tok, hI3.glue, hI3.gluek, hI3.pos_le, ?_⟩
       · have hev : ((s2.events.setIfInBounds m.pos (Ev.start .SOURCE_FILE fp0)).push Ev.finish).toList =
             Ev.start .SOURCE_FILE fp0 :: (tail ++ [Ev.finish]) := by
           simp [hmpos, htail]
